@@ -77,7 +77,9 @@ func monPrefix(w *World) {
 					}
 				}
 				if sendTimedOut && len(g) > len(acc[i]) && bytes.HasSuffix(g, acc[i]) &&
-					bytes.HasPrefix(acc[i], g[:len(g)-len(acc[i])]) {
+					concatOfPrefixes(g[:len(g)-len(acc[i])], acc[i]) {
+					// the chunks queued by one or more timed-out
+					// Send calls, followed by the retried message
 					kind = "merged-after-send-timeout"
 				}
 				for j, a := range acc {
@@ -641,4 +643,24 @@ func finalDeadlock(w *World, x *vrt.Exec) {
 				l[:strings.IndexByte(l, '@')], site, x.Leftover)
 		}
 	}
+}
+
+// concatOfPrefixes reports whether b is a concatenation of non-empty proper
+// prefixes of msg.
+func concatOfPrefixes(b, msg []byte) bool {
+	ok := make([]bool, len(b)+1)
+	ok[0] = true
+	for i := 0; i < len(b); i++ {
+		if !ok[i] {
+			continue
+		}
+		for l := 1; l < len(msg) && i+l <= len(b); l++ {
+			if bytes.Equal(b[i:i+l], msg[:l]) {
+				ok[i+l] = true
+			} else {
+				break
+			}
+		}
+	}
+	return len(b) > 0 && ok[len(b)]
 }
